@@ -57,7 +57,8 @@ UnaryNext ==
     \/ \E e \in PowExps : Pow(1, e)
     \/ \E n \in FrobNs : Frob(1, n)
     \/ \E op \in {"is_zero", "is_one", "legendre"} : Query(op, 1, 1)
-    \/ \E y \in Elems : Sqrt(1, y)
+    \/ \E y \in Elems : Sqrt(1, TRUE, y)
+    \/ Sqrt(1, FALSE, Zero)
     \/ Bin("add", 1, 1) \/ Bin("sub", 1, 1) \/ Bin("mul", 1, 1)
     \/ BatchInv(<<1>>, 0)
     \/ (K = 0 /\ IntoBigInt(1))
@@ -100,7 +101,9 @@ AxiomsOK ==
     /\ TFrob(F, K, TMul(F, K, A1, A2), 1) = TMul(F, K, TFrob(F, K, A1, 1), TFrob(F, K, A2, 1))
     /\ TFrob(F, K, A1, TExtDeg(F, K)) = A1
     \* Euler's criterion agrees with the existence of a root
-    /\ MODE = "unary" => (TIsSquare(F, K, A1) <=> \E y \in Elems : TSqr(F, K, y) = A1)
+    /\ MODE = "unary" => /\ (TIsSquare(F, K, A1) <=> \E y \in Elems : TSqr(F, K, y) = A1)
+                         /\ (TIsSquareEuler(F, K, A1) <=> TIsSquare(F, K, A1))
+    /\ TMul(F, K, A1, A2) = TMulGen(F, K, A1, A2)
     \* the norm is multiplicative and lands in the subfield (by construction), level K >= 1
     /\ K >= 1 => TNormDown(F, K, TMul(F, K, A1, A2)) = TMul(F, K-1, TNormDown(F, K, A1), TNormDown(F, K, A2))
 =============================================================================
